@@ -429,3 +429,52 @@ def rule_getter(ctx) -> RuleResult:
         res.notes.append("no property getters in flox classes")
         res.min_instances = 0
     return res
+
+
+# ---------------------------------------------------------------------------------------------
+# R-CAPTURE (C14, C13): a mutable container handed in by the caller is copied before it is stored into an object that outlives the call.
+# The blueprint built by _initialize_aggregation is bound into the tasks of a lazy result.  Storing the caller's own dict (finalize_kwargs)
+# in it by reference means that a later edit of that dict -- e.g. to prepare the next call -- changes what the first, not yet computed,
+# result computes (while its graph keys still name the old value).  Every store `obj.attr = P` of a parameter P annotated as dict / list /
+# Mapping / Sequence / set goes through a copying constructor (copy.deepcopy, copy.copy, dict(...), list(...), {**P}).
+_MUTABLE_ANN = ("dict", "Dict", "list", "List", "Mapping", "MutableMapping", "Sequence", "MutableSequence", "set", "Set")
+_COPIERS = ("copy.deepcopy", "deepcopy", "copy.copy", "dict", "list", "tuple", "set", "frozenset")
+
+
+def rule_capture(ctx) -> RuleResult:
+    res = RuleResult("R-CAPTURE", "mutable containers handed in by the caller are copied before being stored into long-lived objects", min_instances=1)
+    n = 0
+    for q, f in sorted(ctx.prog.funcs.items()):
+        node = f.node
+        if not isinstance(node, (ast.FunctionDef, ast.AsyncFunctionDef)) or f.is_overload:
+            continue
+        if f.name == "__init__" or f.name.startswith("__"):
+            continue            # constructors store what they are given; the rule is about the functions that receive the USER's objects
+        anns = {}
+        for a in list(node.args.args) + list(node.args.kwonlyargs):
+            if a.annotation is not None:
+                t = norm(a.annotation)
+                if any(m in t.replace("[", " ").replace("|", " ").replace(",", " ").split() or t.startswith(m + "[") or f" {m}[" in " " + t for m in _MUTABLE_ANN):
+                    anns[a.arg] = t
+        if not anns:
+            continue
+        for st in walk_own(node):
+            if not (isinstance(st, ast.Assign) and len(st.targets) == 1 and isinstance(st.targets[0], ast.Attribute)):
+                continue
+            v = st.value
+            direct = isinstance(v, ast.Name) and v.id in anns
+            copied = isinstance(v, ast.Call) and norm(v.func) in _COPIERS and v.args and isinstance(v.args[0], ast.Name) and v.args[0].id in anns
+            spread = isinstance(v, ast.Dict) and any(k is None and isinstance(x, ast.Name) and x.id in anns for k, x in zip(v.keys, v.values))
+            if not (direct or copied or spread):
+                continue
+            n += 1
+            pname = v.id if direct else (v.args[0].id if copied else next(x.id for k, x in zip(v.keys, v.values) if k is None and isinstance(x, ast.Name)))
+            res.inst(f"{q}: '{norm(st)[:60]}' stores parameter '{pname}' ({anns[pname][:30]}): copied: {not direct}", f"{q}|{norm(st.targets[0])}")
+            if direct:
+                res.report(f"{q}|caller-container-stored-by-reference|{pname}", f.where(st), q,
+                           f"'{norm(st)[:60]}' keeps the caller's own {anns[pname][:30]} in an object that is bound into the tasks of a lazy result: editing the container "
+                           "afterwards (to prepare the next call) changes what the first result computes, although its graph keys were derived from the old content")
+    if n == 0:
+        res.notes.append("no parameter annotated as a mutable container is stored into an attribute: rule not applicable")
+        res.min_instances = 0
+    return res
